@@ -468,3 +468,13 @@ func c10CeilDiv1000(milli int64) int64 {
 func c10StepLimit(n int) int64 {
 	return int64(math.Ceil(float64(n) * beMaxIncreaseCPUPercent))
 }
+
+func c10MaxN(ls []*c10Layout) int {
+	m := 0
+	for _, l := range ls {
+		if l.N > m {
+			m = l.N
+		}
+	}
+	return m
+}
